@@ -372,20 +372,24 @@ class Emitter:
             if T and asn:
                 pre = lambda: self.rebinds([asn])
             self.block(head + ":", s[2], pre)
-        elif op == "with2":
-            # with cm() as a, cm() as b:  is  with cm() as a: with cm() as b:  -- a is bound (and
-            # reported) before the second manager is even created
-            a, b = s[1], s[2]
-            h1 = f"with ENV.cm({self.site()}) as {a}"
-            h2 = f"ENV.cm({self.site()}) as {b}"
+        elif op in ("with2", "withn"):
+            # with cm() as a, cm(a) as b, ...:  is  with cm() as a: with cm(a) as b: ...  -- each
+            # target is bound (and reported, and possibly given another value) before the next
+            # manager is created from it
+            names, body = ([s[1], s[2]], s[3]) if op == "with2" else (s[1], s[2])
+            heads = []
+            for j, nm in enumerate(names):
+                dep = f", {names[j - 1]}" if j else ""
+                heads.append(f"ENV.cm({self.site()}{dep}) as {nm}")
             if T:
-                self.w(h1 + ":")
-                self.ind += 1
-                self.rebinds([a])
-                self.block("with " + h2 + ":", s[3], lambda: self.rebinds([b]))
-                self.ind -= 1
+                for j, (h, nm) in enumerate(zip(heads, names)):
+                    self.w("with " + h + ":")
+                    self.ind += 1
+                    self.rebinds([nm])
+                self.body(body)
+                self.ind -= len(names)
             else:
-                self.block(h1 + ", " + h2 + ":", s[3])
+                self.block("with " + ", ".join(heads) + ":", body)
         elif op == "import":
             mod, asn = s[1], s[2]
             self.w(f"import {mod}" + (f" as {asn}" if asn else ""))
@@ -829,10 +833,11 @@ def bound_names(fn):
                 add(s[1], "with")
             for q in s[2]:
                 st(q)
-        elif op == "with2":
-            add(s[1], "with")
-            add(s[2], "with")
-            for q in s[3]:
+        elif op in ("with2", "withn"):
+            names, body = ([s[1], s[2]], s[3]) if op == "with2" else (s[1], s[2])
+            for nm in names:
+                add(nm, "with")
+            for q in body:
                 st(q)
         elif op == "import":
             add(s[2] or s[1].split(".")[0], "import")
